@@ -791,9 +791,9 @@ def generation(ctx):
         wit.append(j)
         return j
     W("K2-upper-package-segment", {("a",): [("a", "Cap")]})
-    W("K13-betterproto-package", {("x",): [("betterproto", "y")]})
-    W("K14-alias-clash", {("x",): [("x", "a", "b"), ("x", "a_b")]})
-    W("K14-alias-clash", {("x", "y"): [("x", "a1", "b"), ("x", "a1b")]})
+    W("K30-betterproto-package", {("x",): [("betterproto", "y")]})
+    W("K31-alias-clash", {("x",): [("x", "a", "b"), ("x", "a_b")]})
+    W("K31-alias-clash", {("x", "y"): [("x", "a1", "b"), ("x", "a1b")]})
     W("toplevel-deployment", {("a",): [("b",)]}, root_mode="top")
     results = run_jobs_inprocess(ctx, jobs + wit)
     nchk = 0
@@ -824,6 +824,11 @@ def report(ctx, job, r, mode):
                 ctx.count("gen_site:rpc")
                 if P != Q and not r["fails"]:
                     ctx.seen_nontrivial(("gen", P, Q, e["rpc"][0], "rpc"))
+    if job.get("label") == "toplevel-deployment":
+        # deployment assumption (C13_toplevel_refuted), not a finding: the README generates into a package directory
+        ctx.notes.append("top-level deployment (output directory not a package): " +
+                         (("reproduced: " + r["fails"][0]["what"][:160]) if r["fails"] else "did NOT fail on this tree"))
+        return
     if job.get("label"):
         if r["fails"]:
             ctx.fail("oracle", f"[{job['label']}] {r['fails'][0]['what']}"[:600], cls=job["label"],
